@@ -229,7 +229,7 @@ def one_pop(phi, xx, T, nu=1, gamma=0, h=0.5, theta0=1.0, initial_t=0,
     nu, gamma, h = nu_f(current_t), gamma_f(current_t), h_f(current_t)
     beta = beta_f(current_t)
     dx = numpy.diff(xx)
-    demes_hist = [[0, [nu], []]]
+    demes_hist = [[initial_t, [nu], []]]
     while current_t < T:
         dt = _compute_dt(dx,nu,[0],gamma,h)
         this_dt = min(dt, T - current_t)
@@ -355,7 +355,7 @@ def two_pops(phi, xx, T, nu1=1, nu2=1, m12=0, m21=0, gamma1=0, gamma2=0,
     h1,h2 = h1_f(current_t), h2_f(current_t)
     dx,dy = numpy.diff(xx),numpy.diff(yy)
 
-    demes_hist = [[0, [nu1,nu2], [m12,m21]]]
+    demes_hist = [[initial_t, [nu1,nu2], [m12,m21]]]
     while current_t < T:
         dt = min(_compute_dt(dx,nu1,[m12],gamma1,h1),
                  _compute_dt(dy,nu2,[m21],gamma2,h2))
@@ -516,7 +516,7 @@ def three_pops(phi, xx, T, nu1=1, nu2=1, nu3=1,
     gamma3 = gamma3_f(current_t)
     h1,h2,h3 = h1_f(current_t), h2_f(current_t), h3_f(current_t)
     dx,dy,dz = numpy.diff(xx),numpy.diff(yy),numpy.diff(zz)
-    demes_hist = [[0, [nu1,nu2,nu3], [m12,m13,m21,m23,m31,m32]]]
+    demes_hist = [[initial_t, [nu1,nu2,nu3], [m12,m13,m21,m23,m31,m32]]]
     while current_t < T:
         dt = min(_compute_dt(dx,nu1,[m12,m13],gamma1,h1),
                  _compute_dt(dy,nu2,[m21,m23],gamma2,h2),
@@ -688,7 +688,7 @@ def four_pops(phi, xx, T, nu1=1, nu2=1, nu3=1, nu4=1,
     m41, m42, m43 = m41_f(current_t), m42_f(current_t), m43_f(current_t)
 
     dx,dy,dz,da = numpy.diff(xx),numpy.diff(yy),numpy.diff(zz),numpy.diff(aa)
-    demes_hist = [[0, [nu1,nu2,nu3,nu4], [m12,m13,m14,m21,m23,m24,m31,m32,m34,m41,m42,m43]]]
+    demes_hist = [[initial_t, [nu1,nu2,nu3,nu4], [m12,m13,m14,m21,m23,m24,m31,m32,m34,m41,m42,m43]]]
     while current_t < T:
         dt = min(_compute_dt(dx,nu1,[m12,m13,m14],gamma1,h1),
                  _compute_dt(dy,nu2,[m21,m23,m24],gamma2,h2),
@@ -896,7 +896,7 @@ def five_pops(phi, xx, T, nu1=1, nu2=1, nu3=1, nu4=1, nu5=1,
     m51, m52, m53, m54 = m51_f(current_t), m52_f(current_t), m53_f(current_t), m54_f(current_t)
 
     dx,dy,dz,da,db = numpy.diff(xx),numpy.diff(yy),numpy.diff(zz),numpy.diff(aa),numpy.diff(bb)
-    demes_hist = [[0, [nu1,nu2,nu3,nu4,nu5], [m12,m13,m14,m15,m21,m23,m24,m25,m31,m32,m34,m35,m41,m42,m43,m45,m51,m52,m53,m54]]]
+    demes_hist = [[initial_t, [nu1,nu2,nu3,nu4,nu5], [m12,m13,m14,m15,m21,m23,m24,m25,m31,m32,m34,m35,m41,m42,m43,m45,m51,m52,m53,m54]]]
     while current_t < T:
         dt = min(_compute_dt(dx,nu1,[m12,m13,m14,m15],gamma1,h1),
                  _compute_dt(dy,nu2,[m21,m23,m24,m25],gamma2,h2),
